@@ -13,6 +13,26 @@ CLAIMED = {
   note="One inductive step from arbitrary operands satisfying the representation invariant covers expression trees of any depth. Bounds: universe of 3 base units (thorough 4), |exponent| <= 2^31 per operand (larger exponents overflow i64 in dev builds: outside the claim), root degree 2..4. OUTSIDE: the 4000-name database (units enter as arbitrary exponent vectors), rendering.",
   technique="symbolic execution of rustc MIR + z3, BTreeMap as symbolic-presence association list",
   ref="DESIGN.md §5 C02"),
+ 'C03': dict(
+  text="Symbolic execution of the real MIR of eval_query's `Convert(_, Conversion::Expr)` arm together with eval_expr, eval_unit_name, conformance_err and Context::show: source and target are arbitrary Numbers (unbounded Reals, symbolic exponent vectors), targets of the shapes unit, const*unit, unit/const; z3 decides that the conversion succeeds exactly when the dimensionalities are identical, that the reported x satisfies x*t = v, that a zero-valued target is refused, and that a mismatch is a Conformance error whose first suggestion is the reciprocal hint exactly when v*t is dimensionless.",
+  note="Stubs: Context::lookup -> harness unit table (arbitrary Number per name), to_parts / numeric_value / unit_to_string / describe_unit / canonicalize -> opaque strings (rendering is C05/C06). OUTSIDE: per-unit exhaustiveness over the database, prefix/plural name resolution (C07), digits/base variants, substance conversions.",
+  technique="symbolic execution of rustc MIR + z3",
+  ref="DESIGN.md §5 C03"),
+ 'C10': dict(
+  text="Symbolic execution of the real MIR of the Degree arm of eval_expr, the Conversion::Degree arm of eval_query and Degree::name_base_scale, with zero points and absolute scale units read from the loaded database at run time: for every rational x (unbounded Real) z3 decides `x <scale>` = textbook affine map for each of the six scales, `(x s1) -> s2` = composition of textbook maps for all 36 ordered pairs (identity for s1 = s2), refusal of operands that carry a dimension, Conformance for non-temperatures, and refusal of scale operators inside compound targets (eval_unit_name).",
+  note="Textbook maps are hard-coded in the checker (oracle). Stubs: Context::lookup serves the real database constants plus one arbitrary operand; rendering stubs as in C03. OUTSIDE: lexer spellings of the scale names (degC, the degree-sign forms ...), parse_juxt precedence.",
+  technique="symbolic execution of rustc MIR + z3 (linear real arithmetic)",
+  ref="DESIGN.md §5 C10"),
+ 'C15': dict(
+  text="One inductive step of rink_core::eval from an arbitrary context state (flag, previous answer None/Some(symbolic), registry and temporaries as identity tokens) with the parser and evaluator replaced by an arbitrary result (each of the ten QueryReply variants, raw_value present or absent, or an error): z3/path enumeration decides that previous_result becomes the new raw value exactly when the flag is on and the reply is a Number with a raw value, and is otherwise unchanged; registry, temporaries and flag are untouched; the reply is returned as produced. A static pass over the regenerated MIR checks eval_query/eval_expr/eval_unit_name take &Context and that no interior-mutability type occurs in rink-core.",
+  note="One step from an arbitrary state covers histories of any length (the invariant is the state itself). Stubs: update_time, TokenIterator::new, peekable, parse_query, Context::eval_query. OUTSIDE: front ends (rink-js, repl), that eval_query itself is pure beyond the &Context / no-interior-mutability facts.",
+  technique="symbolic execution of rustc MIR + z3, inductive step; static MIR type scan",
+  ref="DESIGN.md §5 C15"),
+ 'C16': dict(
+  text="Symbolic execution of the real MIR of Substance::get (both branches, loop over properties), Mul<&Number> for &Substance and substance_from_formula with its tokenizer: amount, property inputs/outputs (non-zero Reals) and all exponent vectors symbolic, the queried name ranging over property/input/output names of two properties; z3 decides output*(amount/input), its inverse, conformance refusal, no zero exponents, linear scaling under s*k; formulas `H` + up to 11 symbolic characters: molar mass = count*mass, counts above u32::MAX are not formulas, never a panic.",
+  note="Assumes non-zero property inputs/outputs (loader-enforced) and pairwise distinct names (the statement's premise). OUTSIDE: get_in_unit, to_reply, Substance + Substance, database exhaustiveness, multi-element formulas beyond one symbol + count.",
+  technique="symbolic execution of rustc MIR + z3, symbolic digit strings",
+  ref="DESIGN.md §5 C16"),
  'C09': dict(
   text="Symbolic execution of the real MIR of `to_list` and `Numeric::div_rem`: the value (unbounded Real), the unit values of a list of 2..3 (thorough 4) entries (arbitrary positive Reals) and all unit exponent vectors are symbolic; z3 decides for every value at once that the parts sum to the value exactly, every part but the last is an integer, each remainder is smaller than the unit just used, all parts share the value's sign, and that non-conformable lists/values are refused (Generic vs Conformance). The automatic duration breakdown is the 6-entry instance with the constants read from the loaded database at run time.",
   note="Stubs (nondeterministic summaries listed in evidence): Context::lookup -> harness unit table, Number::to_parts -> raw value only, canonicalize, conformance_err, Show::show. Assumes unit values > 0. OUTSIDE: parse_unitlist (token scanner), rendering of the parts, list lengths > 4 (6 for the fixed duration list).",
@@ -41,8 +61,8 @@ NA = {
 }
 
 PENDING = {
- 'C03': 'not built yet', 'C04': 'not built yet', 'C05': 'not built yet', 'C06': 'not built yet', 'C07': 'not built yet',
- 'C10': 'not built yet', 'C15': 'not built yet', 'C16': 'not built yet',
+ 'C04': 'not built yet', 'C05': 'not built yet', 'C06': 'not built yet', 'C07': 'not built yet',
+
 }
 
 
